@@ -584,4 +584,13 @@ out["introspection_attrs"] = {
 }
 _c.close()
 
+# ---------------------------------------------------------------- UNPACK_EX oparg encoding (which byte counts the targets before the star)
+def _unpack_ex_arg(src):
+    for i in dis.get_instructions(compile(src, "<probe>", "exec")):
+        if i.opname == "UNPACK_EX":
+            return i.arg
+    return None
+
+out["unpack_ex"] = {"before1_after2": _unpack_ex_arg("a, *b, c, d = x"), "before2_after0": _unpack_ex_arg("a, b, *c = x"), "before0_after1": _unpack_ex_arg("*a, b = x")}
+
 json.dump(out, sys.stdout)
